@@ -287,13 +287,29 @@ func (sc *Context) DocValueReaderForReader(r DocumentValueReadable, fields []str
 	dvReader := sc.dvReaders[r]
 	if dvReader == nil {
 		var err error
-		dvReader, err = r.DocumentValueReader(fields)
+		dvReader, err = r.DocumentValueReader(uniqueFields(fields))
 		if err != nil {
 			return nil, err
 		}
 		sc.dvReaders[r] = dvReader
 	}
 	return dvReader, nil
+}
+
+// uniqueFields returns the field names without repetitions, in order of first
+// appearance. A field that is asked for more than once (a sort key that is also
+// aggregated, two aggregations over one field) must still be visited once per
+// document, otherwise each of its values is seen several times.
+func uniqueFields(fields []string) []string {
+	seen := make(map[string]struct{}, len(fields))
+	rv := make([]string, 0, len(fields))
+	for _, f := range fields {
+		if _, ok := seen[f]; !ok {
+			seen[f] = struct{}{}
+			rv = append(rv, f)
+		}
+	}
+	return rv
 }
 
 func (sc *Context) Size() int {
